@@ -34,9 +34,12 @@ Theorem C18_record_contents : forall tc o ins,
 Proof. reflexivity. Qed.
 Print Assumptions C18_record_contents.
 
-(* a failing run: a log without messages, no new record, nothing kept in memory *)
+(* a failing run: a log without messages, no new record, nothing kept in memory (for a task that names no
+   input in the signature of run; with run arguments the inputs are requested between the opening of the
+   log and the body of run - that those requests leave foreign files alone is C18_no_cross_talk) *)
 Theorem C18_failed_run : forall classes run f w id o tc w' e,
   nth_error (w_objs w) id = Some o -> cls_of classes o = Some tc -> os_mem (state_of w id) = None ->
+  c_runargs tc = [] ->
   existsb (str_eqb (c_slug tc)) (w_fail w) = true ->
   (os_forced (state_of w id) = true \/ persisting (c_data tc) = false \/
    dget (result_path tc o) (mkdirs (dir_of_slug (c_slug tc)) (w_store w)) = None) ->
